@@ -23,8 +23,11 @@ func (r *Run) setup() error {
 	cfg := r.Plan.Config
 	for _, b := range cfg.Buckets {
 		if cfg.Backend != "singlefs" {
-			resp := r.quiet("PUT", target(b, "", nil))
-			if !resp.OK() {
+			if cfg.HostBucket {
+				if err := r.Env.Backend.CreateBucket(b); err != nil {
+					return fmt.Errorf("create bucket %s: %v", b, err)
+				}
+			} else if resp := r.quiet("PUT", target(b, "", nil)); !resp.OK() {
 				return fmt.Errorf("create bucket %s: %s", b, resp.String())
 			}
 		}
